@@ -489,17 +489,34 @@ def releaseEntry (s : State) (k : Nat) (r : WaitResult) : Option State :=
   | none => none                                   -- .expect("key should only be claimed/released once")
   | some st => release { s with sync := upd s.sync k none } k st r
 
--- src/function/sync.rs: fn release_self
-def releaseSelf (s : State) (k : Nat) : Option State :=
+-- src/runtime.rs: fn is_owner_of_transferred_query
+-- (`thread_id_of_transferred_query(query, None) == Some(thread_id)`; `none` = the walk does not terminate)
+def isOwnerOfTransferredQuery (s : State) (query t : Nat) : Option Bool :=
+  match threadIdOfTransferredQuery s query none with
+  | none => none
+  | some r => some (decide (r = some t))
+
+-- src/function/sync.rs: fn release_self   (`t` = `thread::current().id()`)
+def releaseSelf (s : State) (t k : Nat) : Option State :=
   match s.sync k with
   | none => none                                   -- panic!("key should only be claimed/released once")
   | some st =>
     if st.claimedTwice then
-      -- hand the re-claimed key back to its transfer target; since /repo commit 451fce7 the threads that
-      -- started waiting on it meanwhile are woken (`if mem::take(&mut anyone_waiting) { unblock… }`)
-      let st' : SyncState := { st with claimedTwice := false, owner := .transferred, anyoneWaiting := false }
-      let s1 := { s with sync := upd s.sync k (some st') }
-      if st.anyoneWaiting then unblockRuntimesBlockedOn s1 k .completed else some s1
+      -- hand the re-claimed key back to its transfer target.  Since /repo commit 451fce7 the threads
+      -- that started waiting on it meanwhile are woken; since e06010e only when the query at the end of
+      -- the transfer chain is NOT owned by the releasing thread
+      -- (`if anyone_waiting && !is_owner_of_transferred_query(key, current) { anyone_waiting = false; unblock… }`),
+      -- otherwise `anyone_waiting` stays as it is and nobody is woken.
+      let st1 : SyncState := { st with claimedTwice := false, owner := .transferred }
+      let s1 := { s with sync := upd s.sync k (some st1) }
+      if st.anyoneWaiting then
+        match isOwnerOfTransferredQuery s1 k t with
+        | none => none
+        | some true => some s1
+        | some false =>
+          unblockRuntimesBlockedOn
+            { s with sync := upd s.sync k (some { st1 with anyoneWaiting := false }) } k .completed
+      else some s1
     else release { s with sync := upd s.sync k none } k st .completed
 
 inductive TransferAnswer
@@ -616,7 +633,7 @@ def stepA (s : State) : Op → Option (State × Answer)
     if idle s t && ownedBy s k t then (releaseEntry s k r).map (·, .unit) else none
   | .releaseSelf t k =>
     let s := touch (touch s t) k
-    if idle s t && ownedBy s k t then (releaseSelf s k).map (·, .unit) else none
+    if idle s t && ownedBy s k t then (releaseSelf s t k).map (·, .unit) else none
   | .transfer t k newOwner =>
     let s := touch (touch (touch s t) k) newOwner
     if idle s t && ownedBy s k t then
